@@ -197,7 +197,7 @@ def _(stream: Obj['io.TextStream'], encoding: Opt[Str]) -> Obj['io.TextStream']:
     ensures(allocated(result) and (same(result, stream) or is_fresh(result)), 'the_stream_itself_or_a_new_wrapper')
 
 
-@contract('rbql_csv.CSVRecordIterator.__init__', name='C09.csv.init', props=['C09', 'C12'], store_policy='none')
+@contract('rbql_csv.CSVRecordIterator.__init__', name='C09.csv.init', props=['C09', 'C12', 'C10'], store_policy='none')
 def _(self: Obj['rbql_csv.CSVRecordIterator'], stream: Obj['io.TextStream'], encoding: Opt[Str], delim: Str, policy: Str, has_header: Bool, comment_prefix: Opt[Str],
       table_name: Str, variable_prefix: Str, chunk_size: Int, line_mode: Bool):
     requires(chunk_size >= 1, 'positive_chunk_size')
